@@ -569,7 +569,26 @@ def run_jit_process_history(ctx, i, rng):
     ctx.op('nn.jit(methods) used twice in one process')
     ctx.check(close(alone, after), 'rng:jit_draws_depend_on_earlier_calls', lambda: dict(case=desc, alone=np.asarray(alone[1]).tolist(), after=np.asarray(after[1]).tolist()))
     ctx.check(close(alone, again), 'rng:jit_draws_depend_on_earlier_calls', lambda: dict(case=desc, which='cache hit', alone=np.asarray(alone[1]).tolist(), again=np.asarray(again[1]).tolist()))
-    # and against the plain class (the draw after the region: the jitted region consumed as many counts as the plain method)
+    if kind == 'static_arg_draws':
+      # a static argument that decides how many auto-named sub-modules a jitted helper creates: the init tree equals the plain one
+      # whatever was traced before (the auto-name cursor recorded for ANOTHER static value must not be replayed)
+      def make2():
+        class H(nn.Module):
+          def helper(self, x, n):
+            for _ in range(n):
+              x = nn.Dense(2)(x)
+            return x
+
+          @nn.compact
+          def __call__(self, x, n):
+            return nn.Dense(2)(self.helper(x, n))
+        return H, nn.jit(H, methods=['helper'], static_argnums=(2,))
+      Hp, Hj = make2()
+      xx = jnp.ones((1, 2))
+      for n in (1, 1 + na, 1):
+        pn = sorted(Hp().init(jax.random.key(0), xx, n)['params'])
+        jn = sorted(Hj().init(jax.random.key(0), xx, n)['params'])
+        ctx.check(pn == jn, 'init:tree_structure:static_arg_decides_submodules', lambda: dict(case=desc, n=n, plain=pn, jitted=jn))
 
 
 def run_history(ctx, i, rng):
